@@ -187,7 +187,38 @@ def _pairs():
     return out
 
 
+# token-length families: one token (or one flat sequence) of length 8d inside a small context
+LENGTH_FAMILIES = {
+    "len:neg-ident": lambda d: "-" + "a" * (8 * d),
+    "len:neg-select": lambda d: "-cfg" + ".ab" * (3 * d),
+    "len:neg-int": lambda d: "-" + "1" * (8 * d),
+    "len:neg-path": lambda d: "-./" + "ab/" * (3 * d) + "c",
+    "len:not-ident": lambda d: "!" + "a" * (8 * d),
+    "len:ident": lambda d: "a" * (8 * d),
+    "len:select": lambda d: "cfg" + ".ab" * (3 * d),
+    "len:path": lambda d: "./" + "ab/" * (3 * d) + "c",
+    "len:path-dashes": lambda d: "./" + "a-b." * (2 * d) + "nix",
+    "len:uri": lambda d: "https://example.org/" + "ab/" * (3 * d),
+    "len:string": lambda d: '"' + "a$b\\\\n " * d + '"',
+    "len:string-dollars": lambda d: '"' + "$" * (8 * d) + '"',
+    "len:istring-quotes": lambda d: "''" + "'a" * (4 * d) + " ''",
+    "len:comment-line": lambda d: "# " + "x " * (4 * d) + "\n1",
+    "len:comment-block-stars": lambda d: "/* " + "* " * (4 * d) + "*/ 1",
+    "len:attrpath-binding": lambda d: "{ a" + ".b" * (4 * d) + " = 1; }",
+    "len:attrpath-quoted": lambda d: '{ "a"' + '."b c"' * (2 * d) + " = 1; }",
+    "len:attrpath-spaces": lambda d: "{ a" + " . b" * (2 * d) + " = 1; }",
+    "len:inherit-names": lambda d: "{ inherit" + " ab" * (3 * d) + "; }",
+    "len:formals": lambda d: "{ a" + ", b" * (3 * d) + " }: a",
+    "len:list-flat": lambda d: "[" + " 1" * (4 * d) + " ]",
+    "len:apply-flat": lambda d: "f" + " x" * (4 * d),
+    "len:has-attr-path": lambda d: "a ? b" + ".c" * (4 * d),
+    "len:float": lambda d: "1." + "5" * (8 * d),
+    "len:exp-float": lambda d: "1" * (4 * d) + ".5e10",
+    "len:blank-lines": lambda d: "{\n" + "\n" * (2 * d) + "  a = 1;\n}",
+    "len:spaces": lambda d: "{ a =" + " " * (8 * d) + "1; }",
+}
 PAIR_FAMILIES = _pairs()
+FAMILIES.update(LENGTH_FAMILIES)
 FAMILIES.update(PAIR_FAMILIES)
 # every context alone as well: one-line nests reach about 10 levels below the 250-column limit of the harness
 for _c, (_p, _s) in sorted(CONTEXTS.items()):
@@ -236,12 +267,17 @@ def family_check(name, d):
         raise RuntimeError(f"family {name} produces invalid Nix at d={d}")
     s1, w1 = work_of(t1)
     s2, w2 = work_of(t2)
+    if "timeout" in (s1, s2):
+        # time spent outside Python frames (a backtracking regular expression) is invisible to the call counter: a text of
+        # at most a few hundred bytes that needs more than 60 s is measured once more and then reported
+        s1, w1 = work_of(t1)
+        s2, w2 = work_of(t2)
     detail = {"family": name, "d": d, "work_d": w1, "work_2d": w2, "status": [s1, s2]}
     fails = []
     for s in (s1, s2):
         if s.startswith("crash"):
             fails.append((s, detail))
-    if s1 == "ok" and (s2 == "timeout" or (s2 == "ok" and w2 > RATIO_LIMIT * max(w1, 50))):
+    if "timeout" in (s1, s2) or (s1 == "ok" and s2 == "ok" and w2 > RATIO_LIMIT * max(w1, 50)):
         fails.append(("superpolynomial", detail))
     return fails, detail
 
@@ -327,7 +363,7 @@ def atheris_campaign(sh, runs, max_time):
 
 
 def plan(tier):
-    return {"shards": 16, "examples": 1200 if tier == "quick" else 30000, "depths": [4, 8] if tier == "quick" else [3, 4, 6, 8, 12, 16], "pair_depths": [4, 8] if tier == "quick" else [3, 5, 8, 12], "single_depths": [5, 8, 12] if tier == "quick" else [3, 4, 5, 6, 8, 12, 16, 24], "fuzz_runs": 30000 if tier == "quick" else 3000000, "fuzz_time": 20 if tier == "quick" else 420, "wall_limit": 300 if tier == "quick" else 2400}
+    return {"shards": 16, "examples": 1200 if tier == "quick" else 30000, "depths": [4, 8] if tier == "quick" else [3, 4, 6, 8, 12, 16], "pair_depths": [4, 8] if tier == "quick" else [3, 5, 8, 12], "single_depths": [5, 8, 12] if tier == "quick" else [3, 4, 5, 6, 8, 12, 16, 24], "len_depths": [2, 4, 8] if tier == "quick" else [1, 2, 3, 4, 6, 8, 12], "fuzz_runs": 30000 if tier == "quick" else 3000000, "fuzz_time": 20 if tier == "quick" else 420, "wall_limit": 300 if tier == "quick" else 2400}
 
 
 def run_shard(sh):
@@ -343,7 +379,7 @@ def run_shard(sh):
     for i, name in enumerate(names):
         if i % sh.nshards != sh.index:
             continue
-        for d in (sh.params["pair_depths"] if name.startswith("pair:") else sh.params["single_depths"] if name.startswith(("single:", "wide:")) else sh.params["depths"]):
+        for d in (sh.params["pair_depths"] if name.startswith("pair:") else sh.params["single_depths"] if name.startswith(("single:", "wide:")) else sh.params["len_depths"] if name.startswith("len:") else sh.params["depths"]):
             case = {"kind": "family", "family": name, "d": d}
             if name in fam_block or any(name.startswith("pair:") and fb.startswith("ctx:") and fb[4:] in name[5:].split("+") for fb in fam_block):
                 sh.excluded += 1
